@@ -62,6 +62,14 @@ def gen_history(ctx, hid, sc, nops):
             mode = rng.random()
             if mode < 0.15:
                 recs[rng.randrange(len(recs))] = (recs[0][0] + "z", "")        # zero-length record
+            elif mode < 0.3 and len(recs) >= 4:
+                # many zero-length records (half of them and more): the library drops them and works on the rest; everything it
+                # allocated for the dropped ones must still be released with the object
+                ke = rng.randint(len(recs) // 2, len(recs) - 2)
+                for j in rng.sample(range(len(recs)), ke):
+                    recs[j] = (recs[j][0], "")
+                recs += [("e%d" % j, "") for j in range(rng.choice([0, 0, 3, 9]))]
+                rng.shuffle(recs)
             files = []
             if mode > 0.7 and len(recs) >= 3:
                 k = rng.randrange(1, len(recs))
@@ -93,12 +101,15 @@ def gen_history(ctx, hid, sc, nops):
         elif op == "arr":
             kind = rng.choice(["dna", "protein"])
             recs = gen.family(rng, kind, rng.randint(2, 7), rng.choice([10, 60, 200]), spice=False)
+            if rng.random() < 0.25:
+                recs += [("e%d" % j, "") for j in range(rng.randint(len(recs), 2 * len(recs) + 1))]      # more empty than non-empty sequences
+                rng.shuffle(recs)
             t = rng.choice([3, 4, 5]) if kind == "protein" else rng.choice([0, 1, 2, 5])
             t = gen.fit_type(t, kind, recs)
             if rng.random() < 0.1:
                 t = 3 if kind != "protein" else 0      # failing call
             H.ops.append(("kalign_arr %d %s %s %s %d - 0 %s" % (t, pen(rng.choice([-1, 5])), pen(-1), pen(rng.choice([-1, 1])), rng.choice([1, 3, 8]),
-                                                                 " ".join(s for _, s in recs)), [], None))
+                                                                 " ".join((s if s else ".") for _, s in recs)), [], None))
         elif op == "run":
             h = rng.choice([h for h, (st, k) in live.items() if st == "read"])
             kind = live[h][1]
